@@ -43,6 +43,10 @@ type Format struct {
 	// holds b) and returns the call of the real decoder alone, so that allocation measurements
 	// cover only the code under test.
 	Prep func(b []byte) func() (Value, int, bool)
+	// Must: boundary values every run includes whatever the seed; Corpus: fixed byte inputs
+	// (malformed encodings and the regression inputs of the fixed defects).
+	Must   func() []Value
+	Corpus func() [][]byte
 }
 
 func hx(b []byte) string {
